@@ -19,7 +19,8 @@ RULE = ("One case = one simulated multi-worker history (sh and wf moves so that 
 ASSUMPTIONS = ["only states reached by simulated histories are checked (the for-all-matrices statement is "
                "input enumeration, which this technique does not do)",
                "idle blocks up to 9 are compared with exact rational permanents (rtol 1e-8), 10..14 with a "
-               "long-double Glynn permanent (rtol 1e-6); one case in 30 is a 14-ensemble all-wf system"]
+               "long-double Glynn permanent (rtol 1e-5, atol 1e-6: the oracle's own cancellation error reaches 1e-8); "
+               "one case in 30 is a 14-ensemble all-wf system"]
 REAL, STUB = C.REAL, C.STUB
 
 
